@@ -178,17 +178,17 @@ static ruleset make_rules(int rid)
 	rs.ents.push_back("lt"); rs.ents.push_back("gt"); rs.ents.push_back("amp"); rs.ents.push_back("quot");
 	std::vector<attr_d> cat=catalogue();
 	if(rid>=100) {
-		// enumeration rule sets: rid = 100 + ka + 4*kb + 16*xhtml + 32*comments + 64*numeric + 128*enc
+		// enumeration rule sets: rid = 100 + ka + 4*kb + 16*xhtml + 32*comments + 64*numeric + 128*enc + 512*json
 		int x=rid-100;
 		int ka=x%4, kb=(x/4)%4;
 		rs.xhtml=(x/16)%2; rs.comments=(x/32)%2; rs.numeric=(x/64)%2; rs.enc=encs[(x/128)%4];
-		rs.repl=0; rs.via_json=false;
+		rs.repl=0; rs.via_json=(x/512)%2 && ka && kb;     // loaded through rules(json::value)
 		tag_d t; t.name="a"; t.kind=ka; if(ka) rs.tags.push_back(t);
 		t.name="b"; t.kind=kb; if(kb) rs.tags.push_back(t);
 		rs.ents.push_back("a");
 		for(size_t i=0;i<cat.size();i++) {
 			attr_d const &a=cat[i];
-			if((a.tag=="a" && (a.name=="href" || a.name=="c")) || (a.tag=="b" && a.name=="c"))
+			if((a.tag=="a" && (a.name=="href" || a.name=="c" || a.name=="title" || a.name=="name")) || (a.tag=="b" && a.name=="c"))
 				rs.attrs.push_back(a);
 		}
 		build(rs);
@@ -308,6 +308,13 @@ static std::vector<std::string> alphabet(std::string const &name)
 	else if(name=="tok2") {      // tokens with attributes
 		F("<a>"); F("</a>"); F("<b>"); F("</b>"); F("<a c=\"1\">"); F("<a c=\"x\">"); F("<a href=\"http://h/\">"); F("<a href=\"javascript:x\">");
 		F("<b c=\"q\"/>"); F("<A>"); F("</A>"); F("&#1;"); F("&#65;"); F("<a c='1' c='2'>");
+		F("<b c=\"q\n\"/>"); F("<a name='top\n'>");
+	}
+	else if(name=="lf") {        // expression-typed attribute values: a word of the language plus LF / CR / LF LF / LF inside
+		F("<b c=\""); F("<a name='"); F("<a title=\""); F("q"); F("top"); F("\n"); F("\r"); F("\""); F("'"); F("/>");
+	}
+	else if(name=="ctl") {       // pure 7-bit text with C0 / DEL bytes (charset validators reject them)
+		F("a"); F("\x04"); F("\x7f"); F("\0"); F("\x0b"); F("\x1f"); F(" "); F("\t"); F("<b>"); F("</b>"); F("&amp;"); F("\x08"); F("\x0c"); F("\x0e");
 	}
 	#undef F
 	else { std::cerr<<"unknown alphabet "<<name<<std::endl; exit(2); }
@@ -369,7 +376,23 @@ struct gen {
 			return rs.tags[g(rs.tags.size())].name;
 		}
 	}
+	// a value, and for expression / integer attributes sometimes a word of the language with a line
+	// break after it or inside it ("abc\n" must not pass a full-match expression)
 	std::string value(attr_d const &a)
+	{
+		std::string v=value0(a);
+		if((a.type=="cset" || a.type=="alts" || a.type=="opq" || a.type=="int") && g.chance(1,5)) {
+			switch(g(5)) {
+			case 0: v+="\n"; break;
+			case 1: v+="\r\n"; break;
+			case 2: v+="\n\n"; break;
+			case 3: v.insert(v.size()/2,"\n"); break;
+			default: v+="\r";
+			}
+		}
+		return v;
+	}
+	std::string value0(attr_d const &a)
 	{
 		bool good=g.chance(2,3);
 		if(a.type=="int") { char const *v[]={"1","-12","007","3415423452452454235234523"}; char const *b[]={"","-","1.3","x","1 ","+1","1\0"}; return good?v[g(4)]:b[g(6)]; }
